@@ -1,0 +1,50 @@
+//go:build verif
+
+// Contracts for the lungovc verification-condition generator (/verif).
+// This file is comment-only; it is never part of a normal build.
+
+package mongokit
+
+// ---------------------------------------------------------------------------
+// project.go
+//
+// $slice against MongoDB's window definition (specs/window.smt2, 128-bit
+// arithmetic). The array is what Get finds at the path; the result is what the
+// operator leaves in the merge map of the projection state.
+
+//@ func projectSliceInt
+//@   mode bv
+//@   tags C14
+//@   uses window
+//@   modifies nothing
+//@   ensures [C14] result1 == spec.isNumArg(v)
+//@   ensures [C14] imp(spec.sliceNumOK(v), result0 == spec.sliceNum(v))
+
+//@ func projectSlice
+//@   mode bv
+//@   tags C14
+//@   uses window access
+//@   locals state skip limit hasSkip nn s ok l array n start end
+//@   let st = asptr(ctx.Value, projectState)
+//@   let src = spec.getPath(*doc, path)
+//@   let a0 = spec.arr(v)[0]
+//@   let a1 = spec.arr(v)[1]
+//@   requires hastype(ctx.Value, "*mongokit.projectState") && st.merge != nil
+//@   ensures [C14 name=pair-rejects] imp(is(v, VArr) && (len(spec.arr(v)) != 2 || !spec.isNumArg(a0) || !spec.isNumArg(a1) || (spec.sliceNumOK(a1) && spec.sliceNum(a1) < 0)), err != nil)
+//@   ensures [C14 name=pair-accepts] imp(is(v, VArr) && len(spec.arr(v)) == 2 && spec.sliceNumOK(a0) && spec.sliceNumOK(a1) && spec.sliceNum(a1) >= 0, err == nil)
+//@   ensures [C14 name=type-error] imp(!spec.isNumArg(v) && !is(v, VArr), err != nil)
+//@   ensures [C14 lemma name=pair-args] imp(err == nil && hasSkip && is(v, VArr) && spec.sliceNumOK(a0) && spec.sliceNumOK(a1) && is(src, VArr),
+//@     skip == spec.sliceNum(a0) && limit == spec.sliceNum(a1) && limit >= 0 && array == spec.arr(src))
+//@   ensures [C14 lemma name=pair-start] imp(err == nil && hasSkip && is(v, VArr) && spec.sliceNumOK(a0) && spec.sliceNumOK(a1) && is(src, VArr),
+//@     start == spec.pairStart(len(array), skip))
+//@   ensures [C14 lemma name=pair-end] imp(err == nil && hasSkip && is(v, VArr) && spec.sliceNumOK(a0) && spec.sliceNumOK(a1) && is(src, VArr),
+//@     end == spec.pairEnd(len(array), skip, limit))
+//@   ensures [C14 lemma name=pair-copied] imp(err == nil && hasSkip && is(v, VArr) && spec.sliceNumOK(a0) && spec.sliceNumOK(a1) && is(src, VArr),
+//@     has(st.merge, path) && is(st.merge[path], VArr) && spec.isWindow(spec.arr(st.merge[path]), array, start, end))
+//@   ensures [C14 name=pair-window] imp(err == nil && is(v, VArr) && spec.sliceNumOK(a0) && spec.sliceNumOK(a1) && is(src, VArr),
+//@     has(st.merge, path) && is(st.merge[path], VArr) &&
+//@     spec.isWindow(spec.arr(st.merge[path]), spec.arr(src), spec.pairStart(len(spec.arr(src)), spec.sliceNum(a0)), spec.pairEnd(len(spec.arr(src)), spec.sliceNum(a0), spec.sliceNum(a1))))
+//@   ensures [C14 name=count-window] imp(err == nil && spec.isNumArg(v) && spec.sliceNumOK(v) && is(src, VArr),
+//@     has(st.merge, path) && is(st.merge[path], VArr) &&
+//@     spec.isWindow(spec.arr(st.merge[path]), spec.arr(src), spec.countStart(len(spec.arr(src)), spec.sliceNum(v)), spec.countEnd(len(spec.arr(src)), spec.sliceNum(v))))
+//@   ensures [C14 name=not-array] imp(!is(src, VArr), has(st.merge, path) == old(has(st.merge, path)))
